@@ -34,9 +34,6 @@ Proof.
       left. split; auto. exists (negb made && (rc =? 1)), ds, h1, nt, ds', flag. split; auto.
 Qed.
 
-Lemma slice_kind_not_pass h : slice_kind h = true -> pass_empty h = false.
-Proof. destruct h; cbn; try discriminate; reflexivity. Qed.
-
 (* run_hooks on a SimTick whose hooks hold no pending decision: every hook is decided by its
    own autonomous_decision and released, exactly once, in this call *)
 Theorem run_hooks_steps : forall hs ds hs' outs rest,
@@ -57,8 +54,7 @@ Proof.
     apply idle_none in Hi.
     destruct HR as [[_ ->]|[_ (d & nt & d' & Ha)]].
     + destruct H3 as [[_ HS]|(b0 & flag & Hd & _)]; [exact HS | congruence].
-    + pose proof (auto_decides _ _ _ _ _ _ Ha) as [[_ Hd]|[Hpe _]].
-      2:{ rewrite (slice_kind_not_pass _ Hk) in Hpe. discriminate. }
+    + pose proof (auto_decided _ _ _ _ _ _ Ha) as Hd.
       destruct H3 as [[Hn _]|(b0 & flag & _ & Hr)]; [congruence|].
       exists false, d, h1, nt, d', flag. split; auto.
 Qed.
